@@ -65,6 +65,9 @@ type Node struct {
 
 // Cluster is the executor: a pure function of (RunConfig, action list).
 type Cluster struct {
+	opt     Options
+	etLog   []int32 // randomized election timeout after every call that drew randomness
+	etPos   int
 	rc      RunConfig
 	nodes   map[uint64]*Node
 	ids     []uint64
@@ -131,11 +134,18 @@ type Options struct {
 	Target string // property id whose violations stop the run ("" = any)
 	// StopOnAny truncates the run at the first violation of any property.
 	Quiet bool
+	// RandSalt changes the byte stream behind crypto/rand.Reader; PinET is the
+	// sequence of randomized election timeouts of an earlier execution of the
+	// same call sequence, re-imposed draw by draw (C19: "with the same
+	// election-timeout draws" - every other use of randomness must not show).
+	RandSalt uint64
+	PinET    []int32
 }
 
 func NewCluster(rc RunConfig, opt Options) *Cluster {
 	InstallRandSeam()
 	c := &Cluster{
+		opt:     opt,
 		rc:      rc,
 		nodes:   map[uint64]*Node{},
 		links:   map[linkKey][]*Flight{},
@@ -279,7 +289,7 @@ func (c *Cluster) finishBootstrap(n *Node) {
 // startNode (re)creates the RawNode on the node's current page storage.
 func (c *Cluster) startNode(n *Node, applied uint64, restart bool, peers ...raft.Peer) {
 	n.inc++
-	n.rnd = newNodeRand(c.rc.Seed, n.id, n.inc)
+	n.rnd = newNodeRand(c.rc.Seed^c.opt.RandSalt, n.id, n.inc)
 	n.logger = &simLogger{c: c, id: n.id}
 	n.rd, n.persisted, n.applied = nil, false, false
 	n.appendQ, n.appendResps, n.applyQ, n.applyResps = nil, nil, nil, nil
@@ -310,6 +320,7 @@ func (c *Cluster) startNode(n *Node, applied uint64, restart bool, peers ...raft
 	n.rn, n.api = rn, api
 	n.up = true
 	n.started = true
+	c.pinElectionTimeout(n, 0)
 	n.st = rn.VerifState()
 	c.chk.onStart(n, restart)
 }
@@ -381,14 +392,36 @@ func (n *Node) call(what string, m *pb.Message, f func() error) (err error) {
 		return nil
 	}
 	c.chk.preCall(n, what, m)
+	draws := n.rnd.Draws
 	ok := c.guard(n, what, func() error { err = f(); return err })
 	if !ok {
 		// The node is dead after a panic.
 		n.down()
 		return nil
 	}
+	c.pinElectionTimeout(n, draws)
 	c.chk.postCall(n, &callCtx{what: what, msg: m, err: err})
 	return err
+}
+
+// pinElectionTimeout runs after every call into a node that drew randomness.
+// First execution: the randomized election timeout the node ended up with is
+// recorded. Re-execution for C19 (Options.PinET): the random bytes differ
+// (Options.RandSalt) and the recorded timeout is imposed instead, so the two
+// executions have the same election-timeout draws and nothing else in common
+// that is random.
+func (c *Cluster) pinElectionTimeout(n *Node, drawsBefore uint64) {
+	if n.rn == nil || n.rnd.Draws == drawsBefore {
+		return
+	}
+	if c.opt.PinET != nil {
+		if c.etPos < len(c.opt.PinET) {
+			n.rn.VerifSetRandomizedElectionTimeout(int(c.opt.PinET[c.etPos]))
+		}
+		c.etPos++
+		return
+	}
+	c.etLog = append(c.etLog, int32(n.rn.VerifState().RandomizedElectionTimeout))
 }
 
 func (c *Cluster) mixDigest(vals ...uint64) {
